@@ -113,6 +113,19 @@ func (fr *Frame) call(v ssa.Value, cc *ssa.CallCommon, st *State, ins ssa.Instru
 		return
 	}
 	name := callee.String()
+	switch name {
+	case "math.Ceil":
+		// exact on the reals (A-ARITH: float64 treated as mathematical; exact below 2^53)
+		x := fr.term(cc.Args[0], st).S
+		fr.setVal(v, fmt.Sprintf("(- (to_real (to_int (- %s))))", x))
+		c.callees[name] = "built-in: real ceiling (float64 treated as mathematical real)"
+		return
+	case "math.Floor":
+		x := fr.term(cc.Args[0], st).S
+		fr.setVal(v, fmt.Sprintf("(to_real (to_int %s))", x))
+		c.callees[name] = "built-in: real floor (float64 treated as mathematical real)"
+		return
+	}
 	if c.wantTermination() && c.fn != nil && c.eng.inModule(callee) && callee.Blocks != nil && c.eng.reaches(callee, c.fn) {
 		fr.recursionObligation(callee, cc, st, pos)
 	}
